@@ -248,11 +248,9 @@ MUTANTS += [
      "new": "size_t const v = _failure_counter.exchange(0, std::memory_order_relaxed); return v > 3 ? v - 1 : v;"},
     {"id": "c08-revert-f11", "props": ["C08"], "file": BW,
      "desc": "report before reclaim removed again (finding F11 comes back)",
-     "old": """    _check_failure_counter(_options.error_notifier);
-
-    auto find_invalid_and_empty_thread_context_callback""",
-     "new": """
-    auto find_invalid_and_empty_thread_context_callback"""},
+     "old": """      _report_failure_counter(*found_invalid_and_empty_thread_context, _options.error_notifier);
+""",
+     "new": """"""},
     # ---------------- C09 ----------------
     {"id": "c09-revert-f1", "props": ["C09"], "file": BQ,
      "desc": "publish-when-drained removed again (finding F1 comes back)",
